@@ -241,7 +241,13 @@ TUninit == /\ Is("Uninit") /\ Step
 MainPathEv == {"OpIn", "Cli", "OpOut", "Worked", "Halt", "OutDone", "InRm", "Sti", "StiDone", "InDone", "Exit", "Cleanup", "Terminate", "BailoutMain", "BailoutSub"}
 TMainPath == l <= Len(TraceLog) /\ Ev.e \in MainPathEv /\ Step /\ UNCHANGED dvars /\ Keep
 
-Next == \/ TMainPath \/ TReset \/ TStart \/ TInitX \/ TSrcTake \/ TSrcRel \/ TSrcClose \/ TSrcStop \/ TAvail \/ TAvailDrop \/ TEof
+\* the capacities the code allocated for its deques are the ones the model's capacity invariants assume
+TQueueCaps == /\ Is("QueueCaps") /\ Step
+              /\ Must(("order_q" \in DOMAIN Ev) => (Ev.order_q = cfg.W + cfg.TotOut /\ Ev.input_q = cfg.TotIn), "order_q holds W + TotOut entries, input_q TotIn")
+              /\ Must(("output_q" \in DOMAIN Ev) => Ev.output_q = cfg.TotOut, "output_q holds TotOut entries")
+              /\ UNCHANGED dvars /\ Keep
+
+Next == \/ TQueueCaps \/ TMainPath \/ TReset \/ TStart \/ TInitX \/ TSrcTake \/ TSrcRel \/ TSrcClose \/ TSrcStop \/ TAvail \/ TAvailDrop \/ TEof
         \/ TWStart \/ TWWait \/ TWWake \/ TWExit
         \/ TParseBegin \/ TParseMore \/ TParseFinish \/ TParseErr \/ TParseBlock
         \/ TRetrBegin \/ TRetrEnd \/ TRetrPush \/ TEmitBegin \/ TEmitEnd \/ TReorder
